@@ -20,6 +20,7 @@ all sibling-reader placements and all histories.
 -/
 import TraitsVerif.Lemmas.PropertyExamples
 import TraitsVerif.Generated.PropertyState
+import TraitsVerif.Lemmas.PropertySource
 namespace TraitsVerif.Props.C12
 open TraitsVerif TraitsVerif.Model.Property
 
@@ -55,6 +56,62 @@ theorem C12_source_as_modelled :
 
 /-- The observer of a property is not a `post_init` observer. -/
 theorem C12_observer_not_post_init : Generated.PropertyState.postInit = false := rfl
+
+/-! ## The tie to the source, second form: the model's step functions ARE the interpreted source
+
+`harness/translate/propsrc.py` turns `_create_property_observe_state.handler`, `cached_property`
+(the assignment of `name` and the body of `decorator`) and the body of C `trait_property_changed`
+into terms of the deep embedding `Model/PropL.lean`; the interpreter there runs them on the model state. -/
+
+/-- For every environment and every state: the model's read is the interpretation of
+`cached_property.decorator` (called with exactly the object, `getattr_property1`), the model's
+`tpc` is the interpretation of the C body of `trait_property_changed` (with that read as
+`has_traits_getattro`), and the model's invalidation handler is the interpretation of
+`_create_property_observe_state.handler` (with that `tpc` as `instance.trait_property_changed`);
+the C body returns `-1` exactly when somebody listens and the read raised (the getter's exception
+propagates, `C12_getter_raises_in_handler`); the observer is not a `post_init` observer.  `mutate` / `step` / `run` are built from exactly these
+three functions, so every theorem below is a theorem about the interpreted source. -/
+theorem C12_step_is_source (P : Env Val) (s : St Val) :
+    readProp P s = Model.PropL.readSrc Generated.PropertyProg.decoratorProg P s
+    ∧ (∀ old, tpc P s old
+        = Model.PropL.tpcSrc Generated.PropertyProg.tpcBody Generated.PropertyProg.decoratorProg P s old)
+    ∧ (P.legacy = false → handlerObserve P s
+        = Model.PropL.handlerSrc Generated.PropertyProg.handlerProg Generated.PropertyProg.tpcBody
+            Generated.PropertyProg.decoratorProg P s)
+    ∧ (∀ old, Model.PropL.tpcRcSrc Generated.PropertyProg.tpcBody Generated.PropertyProg.decoratorProg P s old
+        = (if listening P s then (match (readProp P s).1 with | .error _ => -1 | .ok _ => 0) else 0))
+    ∧ Generated.PropertyProg.postInit = Source.postInit
+    ∧ Generated.PropertyProg.getterArgs = ["obj"] :=
+  ⟨Model.PropL.readProp_is_source P s, fun old => Model.PropL.tpc_is_source P s old,
+   fun hl => Model.PropL.handlerObserve_is_source P hl s,
+   fun old => Model.PropL.tpcRc_is_source P s old, rfl, rfl⟩
+
+/-- Never stale, stated on the interpreted source: after any history, running the translated
+`cached_property.decorator` returns what the getter computes from the heap as it is now, and
+running the translated observer handler leaves the invariant intact. -/
+theorem C12_never_stale_source (P : Env Val) (g : Heap → Val) (hG : PartialGetter P.G g)
+    (hD : DependsOnly g P.E P.root) (hS : ObserveSound P) (hp : P.postInit = false) (hl : P.legacy = false)
+    (steps : List Step) (s : St Val) (hi : Inv P g s) :
+    (∀ v, (Model.PropL.readSrc Generated.PropertyProg.decoratorProg P (run P s steps)).1 = .ok v →
+        v = g (run P s steps).heap)
+    ∧ Inv P g (Model.PropL.handlerSrc Generated.PropertyProg.handlerProg Generated.PropertyProg.tpcBody
+        Generated.PropertyProg.decoratorProg P (run P s steps)) := by
+  have hr := run_inv P g hG hD hS hp steps s hi
+  refine ⟨fun v hv => ?_, ?_⟩
+  · rw [← Model.PropL.readProp_is_source] at hv
+    exact readProp_value P g hG _ hr v hv
+  · rw [← Model.PropL.handlerObserve_is_source P hl]
+    exact handlerObserve_inv P g hG _ hr.weak
+
+/-- Non-vacuity: the interpreted source, run on the fixture state (cached entry 9, a class-level
+listener): the handler pops the entry, `trait_property_changed` finds a listener, re-reads through
+the decorator (one getter call, entry refilled) and delivers `(9, 9)`. -/
+example :
+    let s' := Model.PropL.handlerSrc Generated.PropertyProg.handlerProg Generated.PropertyProg.tpcBody
+      Generated.PropertyProg.decoratorProg exKids exKidsFinal
+    s'.cache = some 9 ∧ s'.calls = exKidsFinal.calls + 1
+      ∧ (s'.notes.drop exKidsFinal.notes.length).map (fun n => (n.old, n.new)) = [(.val 9, 9)] := by
+  decide
 
 /-! ## Never stale -/
 
@@ -145,10 +202,10 @@ value; when no sibling handler ran before the invalidation, `old` is the
 cache entry that was dropped (`Undefined` / `None` when there was none). -/
 theorem C12_announces (P : Env Val) (g : Heap → Val) (hG : PureGetter P.G g)
     (hD : DependsOnly g P.E P.root) (hS : ObserveSound P) (s : St Val) (m : Mutation)
-    (hi : Inv P g s) (hL : (P.staticL || s.dyn) = true)
+    (hi : Inv P g s) (hL : listening P s = true)
     (hu : P.legacy = true → ∀ h, P.isUndef (g h) = false)
     (halt : g (apply m s.heap) ≠ g s.heap) :
-    ∃ old, (mutate P s m).notes = s.notes ++ [⟨old, g (apply m s.heap), P.staticL, s.dyn⟩]
+    ∃ old, (mutate P s m).notes = s.notes ++ [mkNote P s old (g (apply m s.heap))]
       ∧ ((P.legacy = true ∨ P.sibPre m = false) → old = popOld P s) := by
   have hrel : relevant P.E P.root s.heap m = true := by
     cases hr : relevant P.E P.root s.heap m
